@@ -5,3 +5,4 @@ pub mod prog;
 pub mod text;
 pub mod walk;
 pub mod wild;
+pub mod proj;
